@@ -332,6 +332,12 @@ def _absent_in_listing(repo: Repo, run: Run, interp) -> None:
     fk = repo.method("pykdebugparser", "PyKdebugParser", pipeline.line_builder(repo, interp, "formatted_kevents", "_format_kevent"))
     rec = interp.run(pk.module, fk, self_cls=pk)
     ev, table = param(fk.args.args[1].arg), param(fk.args.args[2].arg)
+    import ast as _ast
+    gen_calls = [x for x in sym.walk(rec.return_term()) if x.op == "call" and x.a[0].op == "attr" and x.a[0].a[0] == param("self")
+                 and x.a[0].a[1] in pk.methods and any(isinstance(y, (_ast.Yield, _ast.YieldFrom)) for y in _ast.walk(pk.methods[x.a[0].a[1]]))]
+    if gen_calls:
+        raise AnalysisError(f"the line builder joins the columns produced by the generator {gen_calls[0].a[0].a[1]}(): how an id "
+                            f"absent from the table is shown is not decided")
     eid = T("attr", (ev, "eventid"))
     cond = T("cmp", ("in", eid, table))
     hexid = T("call", (T("builtin", ("hex",)), (eid,), ()))
